@@ -231,14 +231,16 @@ def build_lib(flavour, quiet=False):
     lib = os.path.join(bd, "libhgraph_tree.a")
     listing = hashlib.sha1("\n".join(objs).encode()).hexdigest()
     stamp = lib + ".stamp"
-    if rebuilt or not os.path.exists(lib) or not os.path.exists(stamp) or open(stamp).read() != listing:
+    # the stamp carries a fresh archive id whenever the archive is re-created, so that every harness executable linked against an
+    # OLDER archive is re-linked by its next build_harness call (not only the one built in the call that recompiled the tree)
+    if rebuilt or not os.path.exists(lib) or not os.path.exists(stamp) or open(stamp).read().split("#")[0] != listing:
         if os.path.exists(lib):
             os.unlink(lib)
         r = subprocess.run(["ar", "rcs", lib] + objs, capture_output=True, text=True)
         if r.returncode != 0:
             sys.stderr.write(r.stderr)
             return False, rebuilt
-        open(stamp, "w").write(listing)
+        open(stamp, "w").write(listing + "#" + str(time.time_ns()))
     if not quiet:
         print(f"[build:{flavour}] lib up to date ({rebuilt} rebuilt, {time.time()-t0:.1f}s)", flush=True)
     return True, rebuilt
